@@ -3,6 +3,7 @@
 package c02
 
 import (
+	"bytes"
 	"encoding/binary"
 	"encoding/json"
 	"fmt"
@@ -11,7 +12,10 @@ import (
 	"testing"
 
 	"github.com/hujm2023/go-sms-protocol/cmpp"
+	"github.com/hujm2023/go-sms-protocol/packet"
+	"github.com/hujm2023/go-sms-protocol/sgip"
 	"github.com/hujm2023/go-sms-protocol/smgp"
+	"github.com/hujm2023/go-sms-protocol/smpp"
 
 	"pgregory.net/rapid"
 
@@ -96,11 +100,161 @@ func init() {
 		}
 		return gen.LayoutEncodeRawID(b, v)
 	}
+	reg["header-words"] = func(raw json.RawMessage) *vk.Violation {
+		var c HdrWords
+		_ = json.Unmarshal(raw, &c)
+		return checkHeaderWords(c)
+	}
 	reg["header-reader"] = func(raw json.RawMessage) *vk.Violation {
 		var c HdrCase
 		_ = json.Unmarshal(raw, &c)
 		return checkHeaderReader(c)
 	}
+}
+
+// HdrWords: five arbitrary 32-bit words taken as a header (cmpp/smgp use 3, smpp 4, sgip 5): every exported
+// header reader and writer of the four packages must agree with the big-endian words at their offsets.
+type HdrWords struct {
+	W [5]uint32 `json:"words"`
+}
+
+func checkHeaderWords(c HdrWords) *vk.Violation {
+	var v *vk.Violation
+	img := make([]byte, 20)
+	for i, w := range c.W {
+		binary.BigEndian.PutUint32(img[4*i:], w)
+	}
+	wr := func(f func(w *packet.Writer), withLen bool) ([]byte, error) {
+		w := packet.NewPacketWriter()
+		defer w.Release()
+		f(w)
+		if withLen {
+			return w.BytesWithLength()
+		}
+		return w.Bytes()
+	}
+	bad := func(what string, got []byte, err error, want []byte) *vk.Violation {
+		if err != nil || !bytes.Equal(got, want) {
+			return vk.Violf("header-words/"+what, c, "%s produced %x, %v; the header words are %x", what, got, err, want)
+		}
+		return nil
+	}
+	pn := vk.Guarded("header-words", "header-words/hang", func() any { return c }, func() {
+		W := c.W
+		// CMPP
+		ch := cmpp.NewHeader(W[0], cmpp.CommandID(W[1]), W[2])
+		b, err := wr(func(w *packet.Writer) { cmpp.WriteHeader(ch, w) }, false)
+		if v = bad("cmpp.WriteHeader", b, err, img[:12]); v != nil {
+			return
+		}
+		b, err = wr(func(w *packet.Writer) { cmpp.WriteHeaderNoLength(ch, w) }, true)
+		if v = bad("cmpp.WriteHeaderNoLength+BytesWithLength", b, err, append([]byte{0, 0, 0, 12}, img[4:12]...)); v != nil {
+			return
+		}
+		if v = bad("cmpp.Header.Bytes", ch.Bytes(), nil, img[:12]); v != nil {
+			return
+		}
+		if h, err := cmpp.PeekHeader(img[:12]); err != nil || h != ch {
+			v = vk.Violf("header-words/cmpp.PeekHeader", c, "cmpp.PeekHeader(%x) = %+v, %v", img[:12], h, err)
+			return
+		}
+		if h, err := cmpp.NewHeaderFromBytes(img[:12]); err != nil || h != ch {
+			v = vk.Violf("header-words/cmpp.NewHeaderFromBytes", c, "cmpp.NewHeaderFromBytes(%x) = %+v, %v", img[:12], h, err)
+			return
+		}
+		if r := packet.NewPacketReader(img[:12]); cmpp.ReadHeader(r) != ch || r.Error() != nil || r.Remaining() != 0 {
+			v = vk.Violf("header-words/cmpp.ReadHeader", c, "cmpp.ReadHeader(%x) differs from the words or leaves input", img[:12])
+			return
+		}
+		// SMGP
+		gh := smgp.NewHeader(W[0], smgp.CommandID(W[1]), W[2])
+		b, err = wr(func(w *packet.Writer) { smgp.WriteHeader(gh, w) }, false)
+		if v = bad("smgp.WriteHeader", b, err, img[:12]); v != nil {
+			return
+		}
+		b, err = wr(func(w *packet.Writer) { smgp.WriteHeaderNoLength(gh, w) }, true)
+		if v = bad("smgp.WriteHeaderNoLength+BytesWithLength", b, err, append([]byte{0, 0, 0, 12}, img[4:12]...)); v != nil {
+			return
+		}
+		if v = bad("smgp.Header.Bytes", gh.Bytes(), nil, img[:12]); v != nil {
+			return
+		}
+		if h, err := smgp.PeekHeader(img[:12]); err != nil || h != gh {
+			v = vk.Violf("header-words/smgp.PeekHeader", c, "smgp.PeekHeader(%x) = %+v, %v", img[:12], h, err)
+			return
+		}
+		if h, err := smgp.NewHeaderFromBytes(img[:12]); err != nil || h != gh {
+			v = vk.Violf("header-words/smgp.NewHeaderFromBytes", c, "smgp.NewHeaderFromBytes(%x) = %+v, %v", img[:12], h, err)
+			return
+		}
+		if r := packet.NewPacketReader(img[:12]); smgp.ReadHeader(r) != gh || r.Error() != nil || r.Remaining() != 0 {
+			v = vk.Violf("header-words/smgp.ReadHeader", c, "smgp.ReadHeader(%x) differs from the words or leaves input", img[:12])
+			return
+		}
+		// SMPP
+		ph := *smpp.NewPduHeader(W[0], smpp.CMDId(W[1]), smpp.CMDStatus(W[2]), W[3])
+		b, err = wr(func(w *packet.Writer) { smpp.WriteHeader(ph, w) }, false)
+		if v = bad("smpp.WriteHeader", b, err, img[:16]); v != nil {
+			return
+		}
+		b, err = wr(func(w *packet.Writer) { smpp.WriteHeaderNoLength(ph, w) }, true)
+		if v = bad("smpp.WriteHeaderNoLength+BytesWithLength", b, err, append([]byte{0, 0, 0, 16}, img[4:16]...)); v != nil {
+			return
+		}
+		if h, err := smpp.PeekHeader(img[:16]); err != nil || h != ph {
+			v = vk.Violf("header-words/smpp.PeekHeader", c, "smpp.PeekHeader(%x) = %+v, %v", img[:16], h, err)
+			return
+		}
+		if r := packet.NewPacketReader(img[:16]); smpp.ReadHeader(r) != ph || r.Error() != nil || r.Remaining() != 0 {
+			v = vk.Violf("header-words/smpp.ReadHeader", c, "smpp.ReadHeader(%x) differs from the words or leaves input", img[:16])
+			return
+		}
+		// SGIP
+		sh := sgip.Header{TotalLength: W[0], CommandID: sgip.CommandID(W[1]), Sequence: [3]uint32{W[2], W[3], W[4]}}
+		b, err = wr(func(w *packet.Writer) { sgip.WriteHeaderNoLength(sh, w) }, true)
+		if v = bad("sgip.WriteHeaderNoLength+BytesWithLength", b, err, append([]byte{0, 0, 0, 20}, img[4:20]...)); v != nil {
+			return
+		}
+		if h, err := sgip.PeekHeader(img); err != nil || h != sh {
+			v = vk.Violf("header-words/sgip.PeekHeader", c, "sgip.PeekHeader(%x) = %+v, %v", img, h, err)
+			return
+		}
+		if r := packet.NewPacketReader(img); sgip.ReadHeader(r) != sh || r.Error() != nil || r.Remaining() != 0 {
+			v = vk.Violf("header-words/sgip.ReadHeader", c, "sgip.ReadHeader(%x) differs from the words or leaves input", img)
+			return
+		}
+		if nh := sgip.NewHeader(W[0], sgip.CommandID(W[1]), W[2], W[4]); nh.TotalLength != W[0] || nh.CommandID != sgip.CommandID(W[1]) || nh.Sequence[0] != W[2] || nh.Sequence[2] != W[4] {
+			v = vk.Violf("header-words/sgip.NewHeader", c, "sgip.NewHeader(%#x,%#x,%#x,%#x) = %+v", W[0], W[1], W[2], W[4], nh)
+			return
+		}
+		// short inputs are refused by the peekers
+		for n := 0; n < 20; n++ {
+			if n < 12 {
+				if _, e := cmpp.PeekHeader(img[:n]); e == nil {
+					v = vk.Violf("header-words/cmpp.PeekHeader-short", c, "cmpp.PeekHeader accepted %d octets", n)
+					return
+				}
+				if _, e := smgp.PeekHeader(img[:n]); e == nil {
+					v = vk.Violf("header-words/smgp.PeekHeader-short", c, "smgp.PeekHeader accepted %d octets", n)
+					return
+				}
+			}
+			if n < 16 {
+				if _, e := smpp.PeekHeader(img[:n]); e == nil {
+					v = vk.Violf("header-words/smpp.PeekHeader-short", c, "smpp.PeekHeader accepted %d octets", n)
+					return
+				}
+			}
+			if _, e := sgip.PeekHeader(img[:n]); e == nil {
+				v = vk.Violf("header-words/sgip.PeekHeader-short", c, "sgip.PeekHeader accepted %d octets", n)
+				return
+			}
+		}
+	})
+	if pn != "" {
+		return vk.Violf("header-words/panic", c, "panic\n%s", pn)
+	}
+	return v
 }
 
 // HdrCase: twelve header octets (and some more) delivered to the stream-based header readers in pieces.
@@ -181,6 +335,13 @@ func checkHeaderReader(c HdrCase) *vk.Violation {
 
 func TestHeaderFromReader(t *testing.T) {
 	rapid.Check(t, func(t *rapid.T) {
+		var hw HdrWords
+		for i := range hw.W {
+			hw.W[i] = rapid.OneOf(rapid.Uint32(), rapid.SampledFrom([]uint32{0, 1, 0x7f, 0x80, 0xff, 0x100, 0xffff, 0x10000, 0x7fffffff, 0x80000000, 0x80000001, 0xffffffff})).Draw(t, "word")
+		}
+		rec.Eval()
+		rec.NonTrivial("hdrwords", hw.W)
+		rec.ReportSeq(t, "header-words", hw, func() *vk.Violation { return checkHeaderWords(hw) })
 		c := HdrCase{Proto: rapid.SampledFrom([]string{"cmpp", "smgp"}).Draw(t, "proto"), ErrEOF: rapid.Bool().Draw(t, "eof")}
 		n := rapid.OneOf(rapid.IntRange(12, 30), rapid.IntRange(0, 30)).Draw(t, "len")
 		c.Data = vk.Hex(rapid.SliceOfN(rapid.Byte(), n, n).Draw(t, "data"))
